@@ -139,7 +139,90 @@ def catalogue_c08(tier):
     return cs
 
 
-CATALOGUES = {'C08': catalogue_c08, 'C19': catalogue_c19, 'C05': catalogue_c05, 'C11': catalogue_c11, 'C12': catalogue_c12}
+def SL(ms):
+    return {'op': 'sleep', 'ms': ms}
+
+
+UNSUB1 = {'op': 'unsub', 'u': 1}
+
+
+def catalogue_c18(tier):
+    cs = []
+    for nm, script in [('2items-complete', items(1, 2) + [E(1, 'c')]), ('empty-complete', [E(1, 'c')]), ('item-error', items(1, 1) + [E(1, 'e', 5)]), ('3items-complete', items(1, 3) + [E(1, 'c')])]:
+        cs.append(case('c18/' + nm, S(1), [[{'op': 'tovec_wait'}], script], pre=[{'op': 'tovec_start'}], tags=['tovec']))
+    cs.append(case('c18/through-map', T('map', 0, 'inc', ins=[S(1)]), [[{'op': 'tovec_wait'}], items(1, 2) + [E(1, 'c')]], pre=[{'op': 'tovec_start'}], tags=['tovec']))
+    return cs
+
+
+def catalogue_c09(tier):
+    cs = []
+    oo = lambda x: T('observe_on', ins=[x])
+    roots = {'direct': oo(S(1)), 'below-map': T('map', 0, 'inc', ins=[oo(S(1))]), 'above-map': oo(T('map', 0, 'inc', ins=[S(1)])), 'stacked': oo(oo(S(1)))}
+    if tier == 'thorough':
+        roots['mid-chain'] = T('filter', 0, 'true', ins=[oo(T('map', 0, 'inc', ins=[S(1)]))])
+    for nm, root in roots.items():
+        cs.append(case('c09/observe_on-%s/complete' % nm, root, [items(1, 2) + [E(1, 'c')]], tags=['observe_on']))
+        cs.append(case('c09/observe_on-%s/error' % nm, root, [items(1, 1) + [E(1, 'e', 5)]], tags=['observe_on']))
+        if nm in ('direct', 'stacked') or tier == 'thorough':
+            cs.append(case('c09/observe_on-%s/silent' % nm, root, [items(1, 2)], tags=['observe_on']))
+            cs.append(case('c09/observe_on-%s/unsub' % nm, root, [items(1, 3), [UNSUB1]], tags=['observe_on']))
+    so = T('subscribe_on', ins=[T('from_iter', items=[1, 2, 3])])
+    cs.append(case('c09/subscribe_on/cold', so, [], tags=['subscribe_on', 'cold3']))
+    cs.append(case('c09/subscribe_on/cold-map', T('map', 0, 'inc', ins=[so]), [], tags=['subscribe_on', 'cold3']))
+    cs.append(case('c09/subscribe_on/stacked', T('subscribe_on', ins=[so]), [], tags=['subscribe_on', 'cold3']))
+    return cs
+
+
+def timed(c, period):
+    c['period'] = period
+    return c
+
+
+def catalogue_c15(tier):
+    W = ['workers']
+    iv = lambda d: T('interval', d)
+    cs = [timed(case('c15/interval-take2', T('take', 2, ins=[iv(100)]), [[SL(600)]], tags=W), 100),
+          timed(case('c15/interval-unsub', iv(100), [[SL(250), UNSUB1, SL(400)]], tags=W), 100),
+          timed(case('c15/interval-first', T('first', ins=[iv(100)]), [[SL(500)]], tags=W), 100),
+          timed(case('c15/timer', T('timer', 100, b=7), [[SL(400)]], tags=W), 100),
+          timed(case('c15/timer-unsub-early', T('timer', 100, b=7), [[SL(50), UNSUB1, SL(400)]], tags=W), 100),
+          timed(case('c15/observe_on-complete', T('observe_on', ins=[S(1)]), [items(1, 2) + [E(1, 'c')]], tags=W), 100),
+          timed(case('c15/observe_on-error', T('observe_on', ins=[S(1)]), [items(1, 1) + [E(1, 'e', 5)]], tags=W), 100),
+          timed(case('c15/observe_on-unsub', T('observe_on', ins=[S(1)]), [items(1, 2) + [UNSUB1]], tags=W), 100),
+          timed(case('c15/observe_on-take1', T('take', 1, ins=[T('observe_on', ins=[S(1)])]), [items(1, 2)], tags=W), 100),
+          timed(case('c15/subscribe_on-cold', T('subscribe_on', ins=[T('from_iter', items=[1, 2, 3])]), [[SL(100)]], tags=W), 100),
+          timed(case('c15/subscribe_on-never-unsub', T('subscribe_on', ins=[T('never')]), [[SL(10), UNSUB1, SL(300)]], tags=W), 100),
+          timed(case('c15/debounce-complete', T('debounce', 100, ins=[S(1)]), [[E(1, 'n', 11), SL(150), E(1, 'c'), SL(400)]], tags=W), 100),
+          timed(case('c15/debounce-unsub', T('debounce', 100, ins=[S(1)]), [[E(1, 'n', 11), SL(150), UNSUB1, SL(400)]], tags=W), 100),
+          timed(case('c15/timeout-complete', T('timeout', 100, ins=[S(1)]), [[E(1, 'n', 11), SL(20), E(1, 'c'), SL(500)]], tags=W), 100),
+          timed(case('c15/timeout-unsub', T('timeout', 100, ins=[S(1)]), [[E(1, 'n', 11), SL(20), UNSUB1, SL(500)]], tags=W), 100),
+          timed(case('c15/timeout-fires', T('timeout', 100, ins=[S(1)]), [[E(1, 'n', 11), SL(500)]], tags=W), 100),
+          timed(case('c15/interval-take_until-timer', T('take_until', ins=[iv(100), T('timer', 250, b=0)]), [[SL(800)]], tags=W), 250),
+          timed(case('c15/interval-amb-timer', T('amb', ins=[iv(100), T('timer', 250, b=0)]), [[SL(450), UNSUB1, SL(500)]], tags=W), 250)]
+    if tier == 'thorough':
+        cs += [timed(case('c15/interval-x3', T('take', 1, ins=[iv(100)]), [[SL(300), {'op': 'sub', 'u': 2}, SL(300), {'op': 'sub', 'u': 3}, SL(400)]], tags=W), 100),
+               timed(case('c15/observe_on-stacked-complete', T('observe_on', ins=[T('observe_on', ins=[S(1)])]), [items(1, 2) + [E(1, 'c')]], tags=W), 100),
+               timed(case('c15/retry-interval', T('retry', 2, ins=[T('take', 1, ins=[iv(100)])]), [[SL(500)]], tags=W), 100)]
+    return cs
+
+
+def catalogue_c16(tier):
+    iv = lambda d: T('interval', d)
+    cs = []
+    for d in ([100] if tier == 'quick' else [100, 150]):
+        cs += [timed(case('c16/interval-%d' % d, iv(d), [[SL(3 * d + d // 2), UNSUB1, SL(3 * d)]], tags=['interval']), d),
+               timed(case('c16/timer-%d' % d, T('timer', d, b=7), [[SL(3 * d)]], tags=['timer']), d),
+               timed(case('c16/delay-%d' % d, T('delay', d, ins=[S(1)]), [[E(1, 'n', 11), SL(40), E(1, 'n', 12), E(1, 'c')]], tags=['delay']), d),
+               timed(case('c16/timeout-%d-fires-after-2nd' % d, T('timeout', d, ins=[S(1)]), [[E(1, 'n', 11), SL(40), E(1, 'n', 12), SL(260)]], tags=['timeout']), d),
+               timed(case('c16/timeout-%d-quiet' % d, T('timeout', d, ins=[S(1)]), [[E(1, 'n', 11), SL(40), E(1, 'n', 12), SL(40), E(1, 'c'), SL(300)]], tags=['timeout']), d),
+               timed(case('c16/timeout-%d-nothing-before-first' % d, T('timeout', d, ins=[S(1)]), [[SL(260), E(1, 'n', 11), SL(40), E(1, 'c'), SL(300)]], tags=['timeout']), d),
+               timed(case('c16/timeout-%d-gap-after-first' % d, T('timeout', d, ins=[S(1)]), [[E(1, 'n', 11), SL(260), E(1, 'n', 12)]], tags=['timeout']), d),
+               timed(case('c16/debounce-%d' % d, T('debounce', d, ins=[S(1)]), [[E(1, 'n', 11), SL(40), E(1, 'n', 12), SL(260), E(1, 'n', 13), SL(110), E(1, 'c'), SL(300)]], tags=['subset']), d),
+               timed(case('c16/sample-%d' % d, T('sample', ins=[S(1), S(2)]), [[E(1, 'n', 11), SL(40), E(1, 'n', 12), SL(90), E(1, 'n', 13), SL(110), E(1, 'c')], [SL(90), E(2, 'n', 0), SL(110), E(2, 'n', 0), SL(40), E(2, 'n', 0)]], tags=['subset']), d)]
+    return cs
+
+
+CATALOGUES = {'C08': catalogue_c08, 'C09': catalogue_c09, 'C15': catalogue_c15, 'C16': catalogue_c16, 'C18': catalogue_c18, 'C19': catalogue_c19, 'C05': catalogue_c05, 'C11': catalogue_c11, 'C12': catalogue_c12}
 
 
 # ------------------------------------------------------------------------------------------ engine
